@@ -185,7 +185,8 @@ class CSVRecordIterator extends rbql.RBQLInputIterator {
             // 2. Scanning buffer chunks for non-continuation utf-8 bytes from the end of the buffer:
             //    src_buffer -> (buffer_before, buffer_after) where buffer_after is very small(a couple of bytes) and buffer_before is large and ends with a non-continuation bytes
             // 3. Internal buffer to store small tail part from the previous buffer
-            this.decoder = new util.TextDecoder(encoding, {fatal: true, stream: true});
+            // ignoreBOM: the BOM must reach remove_utf8_bom() which strips it and reports the warning, exactly as in the bulk (csv_path) mode
+            this.decoder = new util.TextDecoder(encoding, {fatal: true, ignoreBOM: true});
         }
 
         this.input_exhausted = false;
